@@ -23,7 +23,10 @@ Definition framed (r out : list N) : Prop :=
 Definition same_inputs (a b : run_cfg) : Prop :=
   rc_journal a = rc_journal b /\ rc_audit a = rc_audit b /\ rc_algo a = rc_algo b
   /\ rc_commodity a = rc_commodity b /\ rc_lookup a = rc_lookup b /\ rc_before a = rc_before b
-  /\ rc_filter a = rc_filter b.
+  /\ rc_filter a = rc_filter b
+  (* ... described in the report zone (the time-stamp leaves of a filter print in it): equal for equal zones, and for
+     different zones when the filter has no time-stamp leaf *)
+  /\ filter_desc a = filter_desc b.
 (* which reports / exports, of which accounts, under which titles, where to *)
 Definition same_selectors (a b : run_cfg) : Prop :=
   rc_accounts a = rc_accounts b /\ rc_bal_acc a = rc_bal_acc b /\ rc_grp_acc a = rc_grp_acc b
